@@ -22,9 +22,9 @@ CHUNK = 1
 def pairs_sizes(tier):
     """All 20 pairs on a small size set covering every crop pattern; one rotating biort per qshift on the wider grid."""
     small = [(2, 2), (3, 5), (6, 8), (8, 6), (5, 12)] if tier == 'quick' else \
-        [(h, w) for h in (2, 3, 4, 6, 8, 10, 12) for w in (2, 3, 4, 6, 8, 10, 12)]
+        [(h, w) for h in (2, 3, 6, 8, 12) for w in (2, 3, 6, 8, 12)]
     out = [(b, q, h, w) for (b, q) in dtc.PAIRS for (h, w) in small]
-    g = [2, 3, 4, 6, 10] if tier == 'quick' else list(range(2, 17))
+    g = [2, 3, 4, 6, 10] if tier == 'quick' else list(range(2, 13))
     rot = list(zip(dtc.BIORTS + dtc.BIORTS[:1], dtc.QSHIFTS))
     out += [(b, q, h, w) for (b, q) in rot for h in g for w in g]
     return sorted(set(out))
@@ -35,7 +35,7 @@ def bounds(tier):
 
 
 def jcap(tier):
-    return 4 if tier == 'quick' else 7
+    return 4 if tier == 'quick' else 5
 
 
 def plan(tier):
@@ -46,7 +46,7 @@ def plan(tier):
 
 def required_regimes(tier):
     return {'variant:N=1', 'variant:C=2', 'variant:no_grad', 'inv:crop_rows', 'inv:crop_cols', 'inv:no_crop', 'closure:self_loop', 'absent:lowpass', 'absent:level1',
-            'absent:coarser_level', 'absent:next_to_crop', 'kind:None', 'kind:zero_dim', 'kind:empty'}
+            'absent:coarser_level', 'absent:next_to_crop', 'kind:None', 'kind:zero_dim', 'kind:empty', 'absent:lowpass_nondefault_layout'}
 
 
 def run(item):
@@ -132,9 +132,31 @@ def _dense(shape, k):
     return v.reshape((1,) + tuple(shape))
 
 
+def _absent_layouts(res, b, q, J, cfg0, tags0, tl, th):
+    """Absent lowpass in non-default (o_dim, ri_dim) layouts: same result as the default layout with a zero lowpass."""
+    import torch
+    from pytorch_wavelets import DTCWTInverse
+    from .c12 import expected_layout
+    exp = DTCWTInverse(biort=b, qshift=q)((torch.zeros_like(tl), th)).numpy()
+    for (o, r) in ((1, -1), (3, 0), (0, 5), (-5, 2)):
+        lay = [torch.as_tensor(expected_layout(h_.numpy(), o, r)) for h_ in th]
+        cfg = dict(cfg0, absent=['lowpass'], placeholder='None', o_dim=o, ri_dim=r)
+        try:
+            got = DTCWTInverse(biort=b, qshift=q, o_dim=o, ri_dim=r)((None, lay)).numpy()
+        except Exception as e:
+            res.violation('absent_as_zeros', cfg, {'kind': 'raise', 'exc': repr(e)[:160]}, tags0)
+            continue
+        res['impl_calls'] += 1
+        res.regime('absent:lowpass_nondefault_layout')
+        if got.shape != exp.shape or common.maxabs(got - exp) > common.TOL * max(1.0, common.maxabs(exp)):
+            res.violation('absent_as_zeros', cfg, {'kind': 'value_or_shape', 'observed_shape': list(got.shape[1:]), 'expected_shape': list(exp.shape[1:])}, tags0)
+
+
 def _absent(res, b, q, J, cfg0, tags0, tl, th, pth):
     import torch
     from pytorch_wavelets import DTCWTInverse
+    if J <= 2 and tl.shape[0] <= 200:
+        _absent_layouts(res, b, q, J, cfg0, tags0, torch.cat([tl, tl.flip(0)], dim=1), [torch.cat([h_, h_.flip(0)], dim=1) for h_ in th])
     inv = DTCWTInverse(biort=b, qshift=q)
     names = ['lowpass'] + ['level%d' % (j + 1) for j in range(J)]
     for r in range(1, J + 1):
